@@ -1,5 +1,8 @@
 INIT Init
 NEXT MCNext
 CONSTANTS
-  HandlerStacks <- LStacks3
-INVARIANT Emit
+  HandlerStacks <- LStacks2
+  AddShapes <- BothShape
+  MaxAdds = 1
+  MaxCycles = 2
+INVARIANT EmitLast
